@@ -293,6 +293,19 @@ def check_array_recursion(ctx, rep, rule, names=('mark', 'untrace')):
                 # the recursive call sits inside the loop over the array's elements
                 rec = True
         if not rec:
+            # ... or the walk keeps its own list of what is still to visit: a loop pops the next object from a local list and,
+            # on arrays, puts every element on that list (`pending.extend(elements)`)
+            from rules.psc import sym as _sym, unref as _unref
+            for h_, body_ in fn.natural_loops():
+                pops_ = [t_ for b_, t_ in fn.calls(body_) if callee_name(t_).startswith('alloc::vec::Vec') and callee_name(t_).endswith('::pop')]
+                for pt_ in pops_:
+                    L_ = _unref(_sym(fn, pt_['args'][0]))
+                    for b_, t_ in fn.calls(body_):
+                        n_ = callee_name(t_)
+                        if n_.endswith(('::extend', '::extend_from_slice', '::append')) and t_['args'] and _unref(_sym(fn, t_['args'][0])) == L_ \
+                                and 'as_vec' in str(_sym(fn, t_['args'][1])):
+                            rec = True
+        if not rec:
             # ... or in the closure handed to for_each over those elements
             from rules.shared import for_each_over
             rec = for_each_over(F, fn, None, 'as_vec', (GCN + name,))
